@@ -140,11 +140,25 @@ var cur atomic.Pointer[Task]
 // environment rather than as a task.
 func Cur() *Task {
 	t := cur.Load()
-	if t != nil && strays.Load() > 0 && t.goid.Load() != curGoid() {
+	if t == nil && (anyOutside.Load() == 0 || !simActive.Load()) {
 		return nil
+	}
+	if anyOutside.Load() != 0 || strays.Load() > 0 {
+		// not every goroutine that gets here is the baton holder: a task that was
+		// blocked on a channel and has just been released finds itself by goroutine;
+		// a goroutine the library started outside any simulation is no task at all
+		if v, ok := byGoid.Load(curGoid()); ok {
+			return v.(*Task)
+		}
+		if strays.Load() > 0 {
+			return nil
+		}
 	}
 	return t
 }
+
+// simActive is true while a simulation runs (between two decisions nobody holds the baton).
+var simActive atomic.Bool
 
 // strays counts live goroutines started by the library while no simulation ran.
 var strays atomic.Int32
@@ -248,13 +262,6 @@ func ChanPoint() {
 	t := Cur()
 	if t == nil {
 		return
-	}
-	if anyOutside.Load() != 0 {
-		// a task that was blocked on the channel and has just been released is not the
-		// baton holder: it finds itself by goroutine
-		if v, ok := byGoid.Load(curGoid()); ok {
-			t = v.(*Task)
-		}
 	}
 	t.Yield(KYield, nil, "chan", 0)
 }
@@ -851,6 +858,19 @@ func (k *Kernel) chooseTask(rs []*Task) *Task {
 		return rs[0]
 	}
 	switch k.spec.Sched.Kind {
+	case "hold":
+		// slow user code: a task that has entered a caller-supplied detector or Read stays
+		// there as long as anybody else can run (callers pile up inside the callback)
+		var free []*Task
+		for _, t := range rs {
+			if !t.hasPend || (t.pend.kind != KDetector && t.pend.kind != KReadRet) {
+				free = append(free, t)
+			}
+		}
+		if len(free) > 0 {
+			return free[k.rng.Intn(len(free))]
+		}
+		return rs[k.rng.Intn(len(rs))]
 	case "pct":
 		if k.changeAt[k.step] && k.last != nil {
 			k.lowPrio--
@@ -1186,6 +1206,8 @@ func (k *Kernel) Run(spec *RunSpec) *Outcome {
 		}
 	}
 	WaitOutstanding()
+	simActive.Store(true)
+	defer simActive.Store(false)
 	races0 := RaceErrors()
 
 	for i := 0; i < n; i++ {
@@ -1214,7 +1236,18 @@ func (k *Kernel) Run(spec *RunSpec) *Outcome {
 			}
 			// goroutines the library started itself may legitimately wait for ever (a
 			// worker parked on a condition variable); only callers that cannot return count
-			if unfinished > 0 {
+			anyOut := false
+			for _, t := range k.tasks {
+				anyOut = anyOut || (!t.finished && t.outside)
+			}
+			if unfinished > 0 && anyOut {
+				// A task sits on a channel (or another primitive the simulator does not
+				// model) and nobody is left to run. Whether that is a deadlock of the
+				// library or a wake-up the simulator failed to see cannot be told from
+				// here: an inconclusive run, never a verdict.
+				sort.Strings(blocked)
+				k.fail("budget", fmt.Sprintf("no runnable task while some are blocked outside the model: %v", blocked))
+			} else if unfinished > 0 {
 				sort.Strings(blocked)
 				k.fail("deadlock", fmt.Sprintf("no runnable task; blocked: %v", blocked))
 			}
